@@ -176,10 +176,13 @@ def make_plugin(display=None, stop=None):
     return w
 
 
-def fire_message(w, addr, thread, name, sent, tag=None, side='client'):
+def fire_message(w, addr, thread, name, sent, tag=None, side='client', strarg=None):
     """libwayland hits one of the closure breakpoints; returns what stop() tells GDB"""
     gdb = w.gdb
-    clo = build_closure(gdb, Closure(name, 'u', [{'code': 'u', 'value': tag if tag is not None else 0}], None, 1, 'wl_display'))
+    if strarg is not None:
+        clo = build_closure(gdb, Closure(name, 'su', [{'code': 's', 'value': strarg}, {'code': 'u', 'value': tag if tag is not None else 0}], None, 1, 'wl_display'))
+    else:
+        clo = build_closure(gdb, Closure(name, 'u', [{'code': 'u', 'value': tag if tag is not None else 0}], None, 1, 'wl_display'))
     gdb._State.thread = gdb._Thread(thread)
     if sent:
         gdb._State.frame = frames_sent(gdb, clo, addr)
